@@ -37,6 +37,7 @@ func runC10(c *Ctx) {
 	ruleCurOncePerNext(c, "C10.11")
 	rulePresenceFlags(c, "C10.12")
 	ruleEOFJudgedByParse(c, "C10.13")
+	ruleScannerWhitespace(c, "C10.14")
 }
 
 // ---- C10.1 --------------------------------------------------------------------
